@@ -269,11 +269,20 @@ class GrandChild(Child):                 # adds another one, with a default that
 class Other(AutoParameterObject):        # unrelated class with the same argument names
     def __init__(self, a, c=0):
         self.a, self.c = a, c
+
+
+class Rounded(AutoParameterObject):      # keeps the exact argument in self._a, shows a coarse view of it as self.a
+    def __init__(self, a, c=0):
+        self._a, self.c = a, c
+
+    @property
+    def a(self):
+        return self._a if not isinstance(self._a, int) or isinstance(self._a, bool) else self._a // 2 * 2
 '''
 OBJ_SIG = {'Base': ['a', 'b', 'verbose'], 'Child': ['a', 'b', 'verbose', 'c'],
-           'GrandChild': ['a', 'b', 'verbose', 'c', 'd'], 'Other': ['a', 'c']}
+           'GrandChild': ['a', 'b', 'verbose', 'c', 'd'], 'Other': ['a', 'c'], 'Rounded': ['a', 'c']}
 OBJ_DEFAULT = {'b': 1, 'verbose': False, 'c': 0, 'd': 'x'}
-OBJ_ELIDE = {'Base': {'b'}, 'Child': {'b'}, 'GrandChild': {'b', 'd'}, 'Other': set()}
+OBJ_ELIDE = {'Base': {'b'}, 'Child': {'b'}, 'GrandChild': {'b', 'd'}, 'Other': set(), 'Rounded': set()}
 
 
 def obj_descriptor(cls, kw):
@@ -295,7 +304,7 @@ def object_cases(draw):
     arg = st.one_of(st.integers(0, 3), st.sampled_from(['x', 'y', '']), st.lists(st.integers(0, 2), max_size=2))
     objs = []
     for _ in range(draw(st.integers(2, 6))):
-        cls = draw(st.sampled_from(['Base', 'Child', 'Child', 'GrandChild', 'GrandChild', 'Other']))
+        cls = draw(st.sampled_from(['Base', 'Child', 'Child', 'GrandChild', 'GrandChild', 'Other', 'Rounded', 'Rounded']))
         kw = {'a': draw(arg)}
         for n in OBJ_SIG[cls][1:]:
             if draw(st.booleans()):
